@@ -639,6 +639,48 @@ def part_valgrind_faults(c, bindir_rel, hx):
             c.violation("hang: %s under valgrind while %s #%d fails" % (t.name, op, k), {"tool": t.label, "executable": t.name, "status": rc, "fault": {"op": op, "k": k}, "report": "no termination", "stream": "fault"})
 
 
+def part_faults_sanitized(c, bindir_san, hx):
+    """the same error paths under ASan/UBSan/libstdc++ assertions: every k-th read/write/fsync/close of every catalogue run fails"""
+    lib = os.path.join(hx, "libvfault.so")
+    env0 = dict(os.environ, **SAN_ENV)
+    env0["ASAN_OPTIONS"] = env0["ASAN_OPTIONS"] + ":verify_asan_link_order=0"
+    jobs = []
+    for t in tr.catalogue():
+        with tr.Scratch(SCRATCH, t) as w:
+            logp = os.path.join(w, "vf.log")
+            rc, out, err = tr.run(t.argv(bindir_san, w, hx), t.stdin, timeout=TOOL_TIMEOUT, env=dict(env0, LD_PRELOAD=lib, VFAULT_LOG=logp), cwd=w)
+            counts = {}
+            try:
+                for l in open(logp):
+                    op = l.split()[0]
+                    counts[op] = counts.get(op, 0) + 1
+            except FileNotFoundError:
+                pass
+        for op, n in sorted(counts.items()):
+            for k in range(1, n + 1):
+                if c.tier == "thorough" or k <= 3 or k >= n - 1 or (k + c.seed) % 3 == 0:
+                    jobs.append((t, op, k, 5 if (k % 2) else 28))
+
+    def work(j):
+        t, op, k, eno = j
+        with tr.Scratch(SCRATCH, t) as w:
+            env = dict(env0, LD_PRELOAD=lib, VFAULT_OP=op, VFAULT_FD="any", VFAULT_K=str(k), VFAULT_ERRNO=str(eno))
+            rc, out, err = tr.run(t.argv(bindir_san, w, hx), t.stdin, timeout=TOOL_TIMEOUT, env=env, cwd=w)
+            return j, rc, err
+
+    with ThreadPoolExecutor(WORKERS) as ex:
+        results = list(ex.map(work, jobs))
+    for (t, op, k, eno), rc, err in results:
+        kind, detail = classify(rc, err)
+        c.count(("san-fault", t.label, op, k), bucket="sanitizer-under-fault/%s" % kind)
+        if kind != "ok":
+            c.violation("%s-under-fault: %s while %s #%d fails with errno %d: %s" % (kind, t.name, op, k, eno, detail),
+                        {"tool": t.label, "executable": t.name, "argv": t.argv("$BIN", "$W", "$HX"), "stdin_hex": hexs(t.stdin), "files_hex": {k_: hexs(v) for k_, v in t.files.items()},
+                         "status": rc, "fault": {"op": op, "k": k, "errno": eno}, "report": detail, "stream": "fault", "stderr_tail": err.decode("utf-8", "replace")[-600:],
+                         "how": "flavour '%s'; ASAN_OPTIONS=verify_asan_link_order=0 VFAULT_OP=%s VFAULT_FD=any VFAULT_K=%d VFAULT_ERRNO=%d LD_PRELOAD=$HX/libvfault.so %s < stdin" % (
+                             SAN, op, k, eno, " ".join(t.argv("$BIN", "$W", "$HX")))})
+
+
 def main(argv):
     c = Check("C20", argv)
     ok, blog = build_repo(["all"])
@@ -655,6 +697,7 @@ def main(argv):
     kconst = {}
     part_formatters(c, drv, kconst)
     part_tools(c, os.path.dirname(repo_bin("x", SAN)), os.path.dirname(hx_bin("x")))
+    part_faults_sanitized(c, os.path.dirname(repo_bin("x", SAN)), os.path.dirname(hx_bin("x")))
     part_valgrind(c, os.path.dirname(repo_bin("x")), os.path.dirname(hx_bin("x")))
     part_valgrind_faults(c, os.path.dirname(repo_bin("x")), os.path.dirname(hx_bin("x")))
     if c.tier == "thorough":
